@@ -258,11 +258,12 @@ fn format_attribute(
 
     if let Some((last, main)) = attr.arguments.split_last() {
         output.push('(');
+        // A comma expression must be parenthesised or it reads back as further arguments
         for expr in main {
-            format_expression(expr, output, context)?;
+            format_subexpression(expr, 17, OperatorSide::CommaList, output, context)?;
             output.push_str(", ");
         }
-        format_expression(last, output, context)?;
+        format_subexpression(last, 17, OperatorSide::CommaList, output, context)?;
         output.push(')');
     }
 
@@ -293,7 +294,8 @@ fn format_function_param(
 
     if let Some(default_expr) = &param.default_expr {
         output.push_str(" = ");
-        format_expression(default_expr, output, context)?;
+        // A comma expression must be parenthesised or it reads back as further parameters
+        format_subexpression(default_expr, 17, OperatorSide::CommaList, output, context)?;
     }
 
     Ok(())
@@ -600,7 +602,8 @@ fn format_expression_or_type(
 ) -> Result<(), FormatError> {
     match value {
         ast::ExpressionOrType::Expression(expr) | ast::ExpressionOrType::Either(expr, _) => {
-            format_expression(expr, output, context)
+            // A comma expression must be parenthesised or it reads back as further arguments
+            format_subexpression(expr, 17, OperatorSide::CommaList, output, context)
         }
         ast::ExpressionOrType::Type(ty) => format_type_id(ty, output, context),
     }
@@ -1301,7 +1304,8 @@ fn format_enum(
 
         if let Some(expr) = &value.value {
             output.push_str(" = ");
-            format_expression(expr, output, context)?;
+            // A comma expression must be parenthesised or it reads back as further values
+            format_subexpression(expr, 17, OperatorSide::CommaList, output, context)?;
         }
 
         output.push(',');
